@@ -232,7 +232,7 @@ def run(case):
             pv2 = np.asarray(fit2.parameter_values, float)
             for i, nm in enumerate(names):
                 if nm in free and abs(pv2[i] - pv[i]) > 0.1 * max(pe[i], 1e-300):  # two minimisations, each within 0.045 sigma of its minimum
-                    # bug model of KF-C06-2: the loop of do_fit used up all its iterations (1 initial fit + max_iterations refits) without converging
+                    # facet naming only (no in-domain demonstration: observed only with x uncertainties larger than half the point spacing): the loop of do_fit used up all its iterations (1 initial fit + max_iterations refits) without converging
                     max_it = int(fs.k("kafe2.config").kc("fit", "iterative_do_fit", "max_iterations"))
                     facet = "iterative-loop-exhausted" if n_min["n"] >= 1 + max_it else "iterative-not-a-fixed-point"
                     raise Violation(facet, f"{nm}: reported {pv[i]!r}, refit with the covariance evaluated at the reported optimum gives {pv2[i]!r} "
@@ -272,11 +272,6 @@ def run(case):
 
 
 KNOWN = {
-    # iterative treatment of dynamic uncertainties: the loop in FitBase.do_fit (refit with the uncertainties frozen at the previous result until the cost
-    # changes by < 1e-5, at most max_iterations = 10 times) does not always converge when the dynamic uncertainties are large (cycles of period 2, slow
-    # drift); do_fit then returns the last state without a warning.  Bug model checked by the harness: the number of minimisations inside do_fit
-    # (counted by wrapping fit._fitter.do_fit) equals 1 + max_iterations, i.e. the loop was exhausted.
-    "KF-C06-2": lambda sub, case, v: case["spec"].get("dea") == "iterative" and v.facet == "iterative-loop-exhausted",
     # MinimizerScipyOptimize passes tol=1e-6 to scipy.optimize.minimize; with parameter limits scipy selects L-BFGS-B, for which tol becomes the
     # *relative* function-reduction threshold ftol: the search stops ("RELATIVE REDUCTION OF F <= FACTR*EPSMCH") far from the constrained
     # minimum (several cost units) when a step along an active bound makes little progress.
